@@ -640,6 +640,13 @@ class XsdElement(XsdComponent, ParticleMixin,
             else:
                 context.identities[identity] = identity.get_counter(obj)
 
+            if isinstance(identity, XsdKeyref) and identity.refer not in context.identities \
+                    and isinstance(identity.refer, XsdIdentity):
+                # The referred key can be defined on a descendant that may be
+                # missing in the instance: provide a disabled empty table for it.
+                context.identities[identity.refer] = identity.refer.get_counter(obj)
+                context.identities[identity.refer].enabled = False
+
         if not context.level:
             # Need to set converter context with the right object (the resource can be lazy)
             context.converter.set_xmlns_context(obj, context.level)
